@@ -864,6 +864,12 @@ func flowScenarioCfg(x *explore.X, depth int, reduced bool) {
 				}})
 			}
 		}
+		if b.iws != w/2 {
+			// one SETTINGS frame naming the parameter twice: values are processed in the order they appear, the last one holds
+			evs = append(evs, event{fmt.Sprintf("B:SETTINGS(IWS=%d,IWS=%d)", 1<<20, w/2), func() {
+				b.sendSettings(http2.Setting{ID: http2.SettingInitialWindowSize, Val: 1 << 20}, http2.Setting{ID: http2.SettingInitialWindowSize, Val: uint32(w / 2)})
+			}})
+		}
 		x.State(y.stateKey(fmt.Sprintf("flow d%d w%d t%v e%v%v o%v r%v", dir, w, tight, ended[1], ended[3], opened7, resetByB)), depth-step)
 		ev := evs[x.ChooseFree(fmt.Sprintf("event%d", step), len(evs))]
 		hist += ev.name + " "
@@ -1322,6 +1328,8 @@ func headerBoundary(x *explore.X) {
 	n := 16384 - 150 + x.ChooseFree("value-length-16234+", 161)
 	prio := x.ChooseFree("priority-fields", 2) == 1
 	fromServer := x.ChooseFree("sender", 2) == 1
+	// h2 debug logging (Config.EnableDebugLogs) prints every header list: what is printed must not become what is sent
+	y.dbg = x.ChooseFree("debug-logs", 2) == 1
 	val := strings.Repeat("~", n)
 	pp := http2.PriorityParam{}
 	if prio {
@@ -1337,7 +1345,7 @@ func headerBoundary(x *explore.X) {
 	} else {
 		y.c.sendHeaders(1, append(reqHeaders("/b"), hpack.HeaderField{Name: "x-big", Value: val}), false, pp, 16000)
 	}
-	ev := fmt.Sprintf("HEADERS with a %d-octet value (priority fields: %v, from the server: %v)", n, prio, fromServer)
+	ev := fmt.Sprintf("HEADERS with a %d-octet value (priority fields: %v, from the server: %v, debug logs: %v)", n, prio, fromServer, y.dbg)
 	if !y.oracle(ev) {
 		return
 	}
